@@ -1,4 +1,5 @@
 import Goflow.Gen.History
+import Goflow.Gen.Config
 /-! C11 generator: histories with sampling announcements in options data (elements 305 / 50 / 34,
     4-byte encoding). The oracle is a reference map keyed by (exporter IP, version, domain). -/
 namespace Goflow.Gen.C11
@@ -12,7 +13,10 @@ structure Scope where
 def dataTpl : List SField := [⟨1001, 4, none⟩, ⟨1002, 2, none⟩]
 
 def genOptsLayout (version : Nat) : G (List SField × List SField) := do
-  let scopes ← listOf (← range 0 1) (do pure (⟨1, 4, none⟩ : SField))
+  -- scope fields: none, an IANA one, or (IPFIX) an enterprise-specific one — its enterprise number sits between the field
+  -- specifiers like that of an option field
+  let scopes ← listOf (← range 0 1) (do
+    if version = 10 ∧ (← chance 1 3) then pure (⟨← range 1 300, 4, some (← range 1 60000)⟩ : SField) else pure (⟨1, 4, none⟩ : SField))
   -- option fields: a subset of the three sampling elements plus unrelated ones, in random order
   let ids ← pick [[305], [50], [34], [34, 50], [50, 305], [34, 305], [1005, 34], [50, 1006, 305], [1007]]
   let fs0 : List SField := ids.map fun id => ⟨id, 4, none⟩
@@ -131,10 +135,17 @@ def genHistory (pipe : String) (n : Nat) : G (List String) := do
                    "expect @col * SamplingRate=" ++ toString rate]
   pure out
 
+/-- a mapping file that sends an element of the data records (1001, in both protocols) to the `sampling_rate` column, as the
+    `field: 34` example of docs/protocols.md does: the column of a flow is still the rate the exporter announced (the mapped value is
+    written first, the announced rate is stamped on every message of the datagram afterwards) -/
+def mappedRateConfig : Format.RawConfig :=
+  { ipfix := [{ type := 1001, destination := "sampling_rate" }], v9 := [{ type := 1001, destination := "sampling_rate" }] }
+
 def gen (n : Nat) : G (List String) := do
   let mut out : List String := []
   for i in [0:n] do
     let pipe := if i % 2 = 0 then "nf" else "auto"
-    out := out ++ header ++ (← genHistory pipe (← range 10 50))
+    let hdr := if i % 3 = 2 then ["reset", Format.cfgOp "cm" mappedRateConfig, "pipe nf netflow cm", "pipe auto flow cm", "pipe sf sflow cm"] else header
+    out := out ++ hdr ++ (← genHistory pipe (← range 10 50))
   pure out
 end Goflow.Gen.C11
